@@ -7,6 +7,7 @@ import re
 from math import inf
 from typing import Any, Dict, List, Optional
 
+from ..common import CaseTimeout
 from .model import CallRec, Injected, PoolM, ReqM, TaskM
 from .oracles import Oracles
 from .world import Inconclusive, Sentinel, World, quiet_logging
@@ -174,6 +175,8 @@ class Run(Oracles):
             try:
                 loop.run_until_complete(asyncio.wait(pending, timeout=0))
                 loop.run_until_complete(asyncio.sleep(0))
+            except CaseTimeout:
+                raise
             except BaseException:
                 pass
         for t in asyncio.all_tasks(loop):
